@@ -787,17 +787,17 @@ fn has_plus_group(q: &str) -> bool {
     false
 }
 
-/// `Query::new` on a `+` group whose body can match nothing does not terminate / exhausts memory on
-/// some trees of the library, which would take the explorer down with it.  Such queries are compiled
-/// in a child process (this executable, `--compile-probe`) with a 1 GB address space and a 10 s
+/// `Query::new` (or running the query) on a `+` group whose body can match nothing does not terminate /
+/// exhausts memory in the library, which would take the explorer down with it.  Such queries are compiled
+/// in a child process (this executable, `--compile-probe`) with a 1 GB address space and a 5 s
 /// budget first; `false` = the child crashed or ran out of time.
-fn guarded_compile_ok(lang_id: &str, qt: &str) -> bool {
+fn guarded_compile_ok(lang_id: &str, qt: &str, text: &[u8]) -> bool {
     let exe = match std::env::current_exe() {
         Ok(e) => e,
         Err(_) => return true,
     };
     let child = std::process::Command::new(exe)
-        .args(["--compile-probe", lang_id, &hex(qt.as_bytes())])
+        .args(["--compile-probe", lang_id, &hex(qt.as_bytes()), &(if text.is_empty() { "-".to_string() } else { hex(text) })])
         .env("VERIF_MEM_GB", "1")
         .stdout(std::process::Stdio::null())
         .stderr(std::process::Stdio::null())
@@ -811,7 +811,7 @@ fn guarded_compile_ok(lang_id: &str, qt: &str) -> bool {
         match child.try_wait() {
             Ok(Some(status)) => return status.success(),
             Ok(None) => {
-                if start.elapsed().as_secs() >= 10 {
+                if start.elapsed().as_secs() >= 5 {
                     let _ = child.kill();
                     let _ = child.wait();
                     return false;
@@ -881,7 +881,7 @@ fn emit_case(out: &mut impl Write, cid: &str, lang_id: &str, lang: &Language, tr
     if !qt.chars().any(|c| c == '+' || c == '*' || c == '?') {
         st.qfree += 1;
     }
-    if has_plus_group(qt) && !guarded_compile_ok(lang_id, qt) {
+    if has_plus_group(qt) && !guarded_compile_ok(lang_id, qt, text) {
         writeln!(out, "compile crash").unwrap();
         writeln!(out, "run").unwrap();
         return;
@@ -966,9 +966,37 @@ fn main() {
     if args.get(1).map(|s| s == "--compile-probe").unwrap_or(false) {
         // child of `guarded_compile_ok`: exit 0 whatever the verdict; a crash / timeout is the signal
         if let (Some(lang), Some(qh)) = (args.get(2), args.get(3)) {
-            if let Ok(b) = zoo::load(lang) {
-                if let Ok(q) = String::from_utf8(unhex(qh)) {
-                    let _ = Query::new(&b.language, &q);
+            match zoo::load(lang) {
+                Ok(b) => {
+                    if let Ok(q) = String::from_utf8(unhex(qh)) {
+                        let r = Query::new(&b.language, &q);
+                        if std::env::var("C05_TRACE").is_ok() {
+                            eprintln!("compile-probe: {:?} -> {}", q, if r.is_ok() { "ok" } else { "err" });
+                        }
+                        // ... and run it on the document
+                        if let (Ok(q), Some(th)) = (r, args.get(4)) {
+                            let text = if th == "-" { vec![] } else { unhex(th) };
+                            let mut parser = Parser::new();
+                            parser.set_language(&b.language).unwrap();
+                            if let Some(tree) = parser.parse(&text, None) {
+                                let mut cur = QueryCursor::new();
+                                cur.set_match_limit(u32::MAX);
+                                let mut it = cur.matches(&q, tree.root_node(), text.as_slice());
+                                let mut n = 0u64;
+                                while let Some(_) = it.next() {
+                                    n += 1;
+                                }
+                                if std::env::var("C05_TRACE").is_ok() {
+                                    eprintln!("compile-probe: {n} matches");
+                                }
+                            }
+                        }
+                    }
+                }
+                Err(e) => {
+                    // not being able to probe must not look like a successful probe
+                    eprintln!("compile-probe: cannot load {lang}: {e}");
+                    std::process::exit(3);
                 }
             }
         }
